@@ -295,6 +295,8 @@ pub enum Stmt {
     /// (LIST n / LIST a-b / DELETE n / DELETE a-b as inert program text)
     ListCmd(Option<Target>, Option<Target>),
     DeleteCmd(Option<Target>, Option<Target>),
+    /// open-ended range as inert program text: `LIST a-` (false) / `DELETE a-` (true)
+    FromCmd(bool, Target),
     /// verbatim text; the reference model refuses to execute it
     Raw(String),
 }
@@ -592,6 +594,7 @@ pub fn render_stmt(p: &Program, s: &Stmt) -> String {
         Stmt::Cont => "CONT".into(),
         Stmt::ListCmd(a, b) => format!("LIST{}", render_range(p, a, b)),
         Stmt::DeleteCmd(a, b) => format!("DELETE{}", render_range(p, a, b)),
+        Stmt::FromCmd(del, a) => format!("{} {}-", if *del { "DELETE" } else { "LIST" }, render_target(p, a)),
         Stmt::Raw(s) => s.clone(),
     }
 }
